@@ -38,7 +38,10 @@ def write_batch(arg):
     for c in cs:
         w = c.first("W")
         ok = c.done and w is not None and w.get("close") == "1" and w.get("fail") == "0"
-        out.append((w["file"] if ok else None, c.first("M") if ok else None, c.status() if not ok else None))
+        if ok and "accepted" in w:      # a call of the "refuse" battery was accepted: it is configuration then, no claim
+            out.append((None, None, None))
+            continue
+        out.append((w["file"] if ok else None, c.first("M") if ok else None, (c.status(), w) if not ok else None))
     return out
 
 
@@ -138,6 +141,15 @@ def run(ctx):
             if f0 != f0b:
                 ctx.violation(dict(klass, predicate="two-runs-differ"), "%s %s: the same content written twice gives different files" % (kind, cname),
                               {"kind": kind, "cline": cline, "ops": "W", "n": n, "twice": True})
+            # "a function of content and configuration only": option calls the library refuses (unknown types, a minimum above the
+            # maximum, zero, values beyond int) with the error cleared afterwards are not part of the configuration
+            (fr, mr, sr), = write_batch((cline + " refuse=1", content, ["W"], True))
+            ctx.states += 1; ctx.evaluations += 1; ctx.transitions += 12
+            if fr is None and sr is not None:
+                ctx.violation(dict(klass, predicate="write-fails-after-refused-option-calls"), "%s %s: %s" % (kind, cname, sr), {"kind": kind, "cline": cline, "n": n, "refuse": True})
+            elif fr is not None and fr != f0:
+                ctx.violation(dict(klass, predicate="refused-option-calls-change-the-output"), "%s %s: the file written after a series of refused option calls "
+                              "(each followed by zck_clear_error) differs from the file written without them" % (kind, cname), {"kind": kind, "cline": cline, "n": n, "refuse": True})
             rows0, offs0 = chunk_table(m0)
             boundaries = offs0[1:]
             ctx.extra.setdefault("chunks", {})["%s %s" % (kind, cname)] = len(rows0)
@@ -403,6 +415,9 @@ def replay(case, quiet=True):
     content = gen(case["kind"], case["n"], seed)
     cline = case["cline"]
     (f0, m0, s0), = write_batch((cline, content, ["W"], True))
+    if case.get("refuse"):
+        (f1, m1, s1), = write_batch((cline + " refuse=1", content, ["W"], False))
+        return {"violated": (f1 is None and s1 is not None) or (f1 is not None and f1 != f0), "detail": str(s1)[:300]}
     if case.get("twice"):
         (f1, m1, s1), = write_batch((cline, content, ["W"], False))
         return {"violated": f0 != f1}
